@@ -60,6 +60,15 @@ CHECKS = {
             'conversion sequences (192 events) to depth 4 (thorough 6) with dedup and 2 (3) without, reference model in lock-step.',
             'Trusted: reference quantizer (C01/C05). Routes are compared through the common expected value (differential).',
             'DESIGN.md section 4 C10'),
+    'C02': (TECH_E2,
+            'No reachable object violates the well-formedness invariant (codes inside the format, n_int, upper/lower/precision through scale and '
+            'bias, dtype string, 4-key status record): BFS over programs from 75 roots with a menu of 104 public operations (construct, writes '
+            'in 8 value classes incl. 1e300 and 2**70, full/dtype/partial resizes, like/equal/Fxp(x)/fxp_like, + - * / // % under all 5 sizing '
+            'policies, constants, unary, shifts under all 3 shifting modes, bitwise, indexing, reductions, reset, deepcopy, config changes) to '
+            'depth 2 (thorough 3 with dedup, 2 without), invariant evaluated on both heap objects in every state. Saturation clause: floats up to '
+            'DBL_MAX and Python ints up to 2^1000 into 28 formats x 5 roundings x 4 routes go to the bound on their own side with that flag.',
+            'Trusted: invariant checker mc/props/c02.py:wellformed (Fractions). States with n_word>52 are observed but not expanded; an event '
+            'that raises is not a state.', 'DESIGN.md section 4 C02'),
 }
 
 NOT_YET = {}
